@@ -373,6 +373,9 @@ def spec_tables(ck):
             en = {x["name"]: x["value"] for x in e["enumerators"]}
     ck.require(en is not None, "enum Alignment not found")
     isalign = lambda n: n.get("k") == "member" and (n.get("name") or "").endswith("FormatSpec::align")
+    if padding_table(ck, F, en):
+        default_fill(ck, F)
+        return
     cuts = [n for n in ap.calls(("QString::left", "QString::right", "QString::mid", "QString::chopped"))]
     ck.require(len(cuts) >= 4, "applyPadding: truncation calls not found")
     for nm, val in (("Right", en["Right"]), ("Left", en["Left"]), ("Center", en["Center"])):
@@ -463,13 +466,7 @@ def spec_tables(ck):
         pl = linear(pad_decl.get("init"), lambda n: "w" if (n.get("k") == "member" and (n.get("name") or "").endswith("FormatSpec::width")) else ("len" if is_call(n, ("QString::length", "QString::size")) else None))
         ok = pl == {"w": 1, "len": -1} or pl == {"w": 1, "len": -1, "": 0}
         ck.ob("C12-O4", sitestr(ap), ok, "padding = width - length" if ok else "padding = %s" % pl, key="applyPadding|padding")
-    # default fill
-    for r in F.records.values():
-        if r["name"].endswith("FormattedToken::FormatSpec"):
-            fl = [f for f in r["fields"] if f["name"] == "fill"]
-            ok = bool(fl) and fl[0].get("init") is not None and (const_str(fl[0]["init"]) == " " or const_int(fl[0]["init"]) == 32)
-            ck.ob("C12-O4", "patternformatter.cpp (FormatSpec::fill)", ok, "fill defaults to a space" if ok else "fill defaults to %s" % describe(fl[0].get("init")) if fl else "no fill field", key="FormatSpec|fill-default")
-
+    default_fill(ck, F)
 
 def _at_index(fn, n, svar_pred):
     """k if expression n (after following single-assignment locals) is <spec string>.at(k) / [k] with constant k"""
@@ -650,3 +647,81 @@ def stateless_tokens(ck):
             why.append("%s written by the const method %s" % (writes[0][2], writes[0][0].name.split("::")[-1]))
         ck.ob("C12-O5", site, not bad, "%s keeps no state between messages" % short if not bad else
               "%s keeps state across messages (%s): what it prints can come from an earlier message" % (short, "; ".join(why)), key="%s|stateful" % short)
+
+
+def default_fill(ck, F):
+    # default fill
+    for r in F.records.values():
+        if r["name"].endswith("FormattedToken::FormatSpec"):
+            fl = [f for f in r["fields"] if f["name"] == "fill"]
+            ok = bool(fl) and fl[0].get("init") is not None and (const_str(fl[0]["init"]) == " " or const_int(fl[0]["init"]) == 32)
+            ck.ob("C12-O4", "patternformatter.cpp (FormatSpec::fill)", ok, "fill defaults to a space" if ok else "fill defaults to %s" % describe(fl[0].get("init")) if fl else "no fill field", key="FormatSpec|fill-default")
+
+
+
+def padding_table(ck, F, en):
+    """C12-O4 by cases: applyPadding is a pure function of (alignment, truncate mode, width, fill, value). It is evaluated from the
+    source (engine/conc.py) on a grid that contains every boundary (value shorter / equal / longer than the width, odd and even
+    padding, width 0) and compared with the documented behaviour. Returns False when the code leaves the evaluable fragment:
+    the shape rules below take over."""
+    from engine.conc import Conc, Unknown
+    ap = F.fn("FormattedToken::applyPadding", flat=False)
+    tm = None
+    for e in F.enums.values():
+        if e["name"].endswith("FormattedToken::TruncateMode"):
+            tm = {x["name"]: x["value"] for x in e["enumerators"]}
+    rec = [r for r in F.records.values() if r["name"].endswith("FormattedToken::FormatSpec")]
+    if tm is None or len(rec) != 1 or not {"None", "Truncate", "TruncateOnly"} <= set(tm) or not {"None", "Left", "Right", "Center"} <= set(en):
+        return False
+    q = {f_["name"]: strip_tmpl(f_.get("qname") or (rec[0]["name"] + "::" + f_["name"])) for f_ in rec[0]["fields"]}
+    if not {"width", "align", "truncateMode", "fill"} <= set(q):
+        return False
+
+    def ref(value, align, trunc, width, fill):
+        if width <= 0:
+            return value
+        cut = (lambda v: v[len(v) - width:]) if align == "Right" else (lambda v: v[:width])
+        if trunc == "TruncateOnly":
+            return value if len(value) <= width else cut(value)
+        if align == "None":
+            return value
+        v = cut(value) if (trunc == "Truncate" and len(value) > width) else value
+        if len(v) >= width:
+            return v
+        pad = width - len(v)
+        if align == "Left":
+            return v + fill * pad
+        if align == "Right":
+            return fill * pad + v
+        return fill * (pad // 2) + v + fill * (pad - pad // 2)
+    values = ("", "a", "ab", "abc", "abcd", "abcde", "abcdefghij")
+    wrong, unknown, n = [], None, 0
+    for align in ("None", "Left", "Right", "Center"):
+        for trunc in ("None", "Truncate", "TruncateOnly"):
+            for width in (0, 1, 2, 3, 4, 5, 8):
+                for value in values:
+                    fields = {q["width"]: width, q["align"]: en[align], q["truncateMode"]: tm[trunc], q["fill"]: ord(".")}
+                    c = Conc(F, max_steps=4000)
+                    try:
+                        got = c.call_fn(ap, [value], fields)
+                    except Unknown as e_:
+                        unknown = str(e_)
+                        break
+                    n += 1
+                    want = ref(value, align, trunc, width, ".")
+                    if got != want:
+                        wrong.append("align=%s truncate=%s width=%d value=%r -> %r (documented %r)" % (align, trunc, width, value, got, want))
+                if unknown:
+                    break
+            if unknown:
+                break
+        if unknown:
+            break
+    if unknown:
+        ck.notes.append("applyPadding could not be tabulated (%s): decided by the shape rules" % unknown)
+        return False
+    ck.touch(ap)
+    ck.ob("C12-O4", sitestr(ap), not wrong, "applyPadding evaluated on %d cases (4 alignments x 3 truncate modes x widths 0..8 x values shorter / equal / longer than the width): "
+          "padding side, centre split floor(p/2) left, kept end on truncation and the no-op cases all as documented" % n if not wrong else
+          "applyPadding differs from the documented behaviour in %d of %d cases, e.g. %s" % (len(wrong), n, "; ".join(wrong[:3])), key="applyPadding|table")
+    return True
